@@ -51,4 +51,496 @@ theorem percentDecode_encByte {b : Nat} (hb : b < 256) (rest : List Nat) :
   congr 1
   omega
 
+
+/-! ### form_urlencoded: serialise then decode -/
+
+theorem hexUpper_ne_plus : ∀ n, n < 16 → hexUpper n ≠ 43 := by decide
+
+theorem plusToSpace_append (a b : List Nat) : plusToSpace (a ++ b) = plusToSpace a ++ plusToSpace b := by
+  simp [plusToSpace]
+
+theorem plusToSpace_encByte {b : Nat} (hb : b < 256) : plusToSpace (percentEncodeByte b) = percentEncodeByte b := by
+  have h1 : b / 16 < 16 := by omega
+  have h2 : b % 16 < 16 := by omega
+  simp [plusToSpace, percentEncodeByte, hexUpper_ne_plus _ h1, hexUpper_ne_plus _ h2]
+
+theorem formUnchanged_ne {b : Nat} (h : formUnchanged b = true) : b ≠ 43 ∧ b ≠ 37 ∧ b ≠ 38 ∧ b ≠ 61 := by
+  simp [formUnchanged] at h
+  omega
+
+theorem formDecodeBytes_byteSerialize (bs : List Nat) (hb : ∀ b ∈ bs, b < 256) :
+    formDecodeBytes (byteSerialize bs) = bs := by
+  induction bs with
+  | nil => simp [formDecodeBytes, byteSerialize, plusToSpace, percentDecode_nil]
+  | cons b bs ih =>
+    have hb' : ∀ x ∈ bs, x < 256 := fun x hx => hb x (List.mem_cons_of_mem _ hx)
+    have hlt : b < 256 := hb b (List.mem_cons_self ..)
+    have ih' := ih hb'
+    unfold formDecodeBytes at ih' ⊢
+    simp only [byteSerialize, plusToSpace_append]
+    by_cases hu : formUnchanged b = true
+    · have := formUnchanged_ne hu
+      simp only [hu, if_true]
+      have h1 : plusToSpace [b] = [b] := by simp [plusToSpace, this.1]
+      rw [h1, List.cons_append, List.nil_append, percentDecode_cons_ne this.2.1, ih']
+    · simp only [hu]
+      by_cases hs : b = 32
+      · subst hs
+        have h1 : plusToSpace [43] = [32] := by simp [plusToSpace]
+        simp only [Bool.false_eq_true, if_false, if_true, h1, List.cons_append, List.nil_append]
+        rw [percentDecode_cons_ne (by decide), ih']
+      · simp only [Bool.false_eq_true, if_false, hs]
+        rw [plusToSpace_encByte hlt, percentDecode_encByte hlt, ih']
+
+/-! ### UTF-8 -/
+
+theorem utf8Step_width {bs : List Nat} {cp w : Nat} (h : utf8Step bs = some (cp, w)) :
+    1 ≤ w ∧ w ≤ bs.length := by
+  unfold utf8Step at h
+  split at h
+  · cases h
+  · split at h
+    · simp only [Option.some.injEq, Prod.mk.injEq] at h; obtain ⟨-, rfl⟩ := h; simp
+    · split at h
+      · split at h
+        · split at h
+          · simp only [Option.some.injEq, Prod.mk.injEq] at h; obtain ⟨-, rfl⟩ := h; simp
+          · cases h
+        · cases h
+      · split at h
+        · split at h
+          · split at h
+            · simp only [Option.some.injEq, Prod.mk.injEq] at h; obtain ⟨-, rfl⟩ := h; simp
+            · cases h
+          · cases h
+        · split at h
+          · split at h
+            · split at h
+              · simp only [Option.some.injEq, Prod.mk.injEq] at h; obtain ⟨-, rfl⟩ := h; simp
+              · cases h
+            · cases h
+          · cases h
+
+theorem take_append_drop_pred (b0 : Nat) (r : List Nat) {w : Nat} (hw : 1 ≤ w) :
+    (b0 :: r).take w ++ r.drop (w - 1) = b0 :: r := by
+  obtain ⟨k, rfl⟩ : ∃ k, w = k + 1 := ⟨w - 1, by omega⟩
+  simp [List.take_append_drop]
+
+theorem utf8LossyAux_of_valid : ∀ (fuel : Nat) (bs : List Nat),
+    utf8DecodeAux fuel bs ≠ none → utf8LossyAux fuel bs = bs := by
+  intro fuel
+  induction fuel with
+  | zero =>
+    intro bs h
+    cases bs with
+    | nil => simp [utf8LossyAux]
+    | cons b r => simp [utf8DecodeAux] at h
+  | succ fuel ih =>
+    intro bs h
+    cases bs with
+    | nil => simp [utf8LossyAux]
+    | cons b0 r =>
+      simp only [utf8DecodeAux] at h
+      simp only [utf8LossyAux]
+      cases hs : utf8Step (b0 :: r) with
+      | none => simp [hs] at h
+      | some p =>
+        obtain ⟨cp, w⟩ := p
+        simp only [hs] at h ⊢
+        have hw := utf8Step_width hs
+        have hrec : utf8DecodeAux fuel (r.drop (w - 1)) ≠ none := by
+          intro hn
+          simp [hn] at h
+        rw [ih _ hrec]
+        exact take_append_drop_pred b0 r hw.1
+
+
+/-! ### integers: print then parse -/
+
+theorem digitsVal_append (xs ys : List Nat) (acc : Nat) :
+    digitsVal (xs ++ ys) acc = (digitsVal xs acc).bind (digitsVal ys) := by
+  induction xs generalizing acc with
+  | nil => simp [digitsVal]
+  | cons x xs ih =>
+    simp only [List.cons_append, digitsVal]
+    split
+    · exact ih _
+    · simp
+
+theorem digitsVal_decDigits (n : Nat) : digitsVal (decDigits n) 0 = some n := by
+  induction n using Nat.strongRecOn with
+  | _ n ih =>
+    rw [decDigits]
+    split
+    · simp [digitsVal]
+      omega
+    · rw [digitsVal_append, ih (n / 10) (by omega)]
+      simp [digitsVal]
+      omega
+
+theorem decDigits_head (n : Nat) : ∃ d rest, decDigits n = d :: rest ∧ 48 ≤ d ∧ d ≤ 57 := by
+  induction n using Nat.strongRecOn with
+  | _ n ih =>
+    rw [decDigits]
+    split
+    · exact ⟨48 + n, [], rfl, by omega, by omega⟩
+    · obtain ⟨d, rest, h, h1, h2⟩ := ih (n / 10) (by omega)
+      exact ⟨d, rest ++ [48 + n % 10], by simp [h], h1, h2⟩
+
+theorem stripPlus_of_ne {d : Nat} (h : d ≠ 43) (rest : List Nat) : stripPlus (d :: rest) = d :: rest := by
+  unfold stripPlus
+  split
+  · rename_i heq
+    simp only [List.cons.injEq] at heq
+    omega
+  · rfl
+
+theorem parseDigits_decDigits (max n : Nat) :
+    parseDigits max (decDigits n) = if n ≤ max then some n else none := by
+  obtain ⟨d, rest, h, _, _⟩ := decDigits_head n
+  have hv := digitsVal_decDigits n
+  unfold parseDigits
+  rw [hv, h]
+  simp
+
+theorem parseUnsigned_decDigits (max n : Nat) :
+    parseUnsigned max (decDigits n) = if n ≤ max then some n else none := by
+  obtain ⟨d, rest, h, h1, _⟩ := decDigits_head n
+  unfold parseUnsigned
+  rw [h, stripPlus_of_ne (by omega), ← h, parseDigits_decDigits]
+
+theorem parseDigits_le {max : Nat} {ds : List Nat} {n : Nat} (h : parseDigits max ds = some n) : n ≤ max := by
+  unfold parseDigits at h
+  cases he : ds.isEmpty <;> simp [he] at h
+  cases hd : digitsVal ds 0 <;> simp [hd] at h
+  obtain ⟨h1, rfl⟩ := h
+  exact h1
+
+theorem parseUnsigned_le {max : Nat} {bs : List Nat} {n : Nat} (h : parseUnsigned max bs = some n) : n ≤ max :=
+  parseDigits_le h
+
+
+/-! ### association lists -/
+
+theorem lookup_append {α : Type} (k : List Nat) (a b : List (List Nat × α)) :
+    lookup k (a ++ b) = match lookup k a with
+      | some v => some v
+      | none => lookup k b := by
+  induction a with
+  | nil => simp [lookup]
+  | cons p a ih =>
+    obtain ⟨k', v⟩ := p
+    simp only [List.cons_append, lookup]
+    split
+    · rfl
+    · exact ih
+
+theorem lookup_none_of_not_mem {α : Type} {k : List Nat} {l : List (List Nat × α)}
+    (h : k ∉ l.map (·.1)) : lookup k l = none := by
+  induction l with
+  | nil => simp [lookup]
+  | cons p l ih =>
+    obtain ⟨k', v⟩ := p
+    simp only [List.map_cons, List.mem_cons, not_or] at h
+    simp only [lookup]
+    rw [if_neg (fun e => h.1 e.symm)]
+    exact ih h.2
+
+theorem lookup_of_mem_nodup {α : Type} {k : List Nat} {v : α} {l : List (List Nat × α)}
+    (hn : (l.map (·.1)).Nodup) (hm : (k, v) ∈ l) : lookup k l = some v := by
+  induction l with
+  | nil => cases hm
+  | cons p l ih =>
+    obtain ⟨k', v'⟩ := p
+    simp only [List.map_cons, List.nodup_cons] at hn
+    simp only [lookup]
+    rcases List.mem_cons.mp hm with heq | hm'
+    · cases heq
+      simp
+    · have : k' ≠ k := by
+        intro e
+        subst e
+        exact hn.1 (List.mem_map.mpr ⟨(k', v), hm', rfl⟩)
+      rw [if_neg this]
+      exact ih hn.2 hm'
+
+theorem lookup_some_mem {α : Type} {k : List Nat} {v : α} {l : List (List Nat × α)}
+    (h : lookup k l = some v) : (k, v) ∈ l := by
+  induction l with
+  | nil => simp [lookup] at h
+  | cons p l ih =>
+    obtain ⟨k', v'⟩ := p
+    simp only [lookup] at h
+    split at h
+    · rename_i e
+      cases h
+      subst e
+      exact List.mem_cons_self ..
+    · exact List.mem_cons_of_mem _ (ih h)
+
+theorem findField_some {k : List Nat} {fields : List Field} {f : Field}
+    (h : findField k fields = some f) : f ∈ fields ∧ f.name = k := by
+  induction fields with
+  | nil => simp [findField] at h
+  | cons g fs ih =>
+    simp only [findField] at h
+    split at h
+    · rename_i e
+      cases h
+      exact ⟨List.mem_cons_self .., e⟩
+    · obtain ⟨h1, h2⟩ := ih h
+      exact ⟨List.mem_cons_of_mem _ h1, h2⟩
+
+theorem findField_of_mem_nodup {fields : List Field} {f : Field}
+    (hn : (fields.map (·.name)).Nodup) (hm : f ∈ fields) : findField f.name fields = some f := by
+  induction fields with
+  | nil => cases hm
+  | cons g fs ih =>
+    simp only [List.map_cons, List.nodup_cons] at hn
+    simp only [findField]
+    rcases List.mem_cons.mp hm with heq | hm'
+    · subst heq
+      simp
+    · have : g.name ≠ f.name := by
+        intro e
+        exact hn.1 (e ▸ List.mem_map.mpr ⟨f, hm', rfl⟩)
+      rw [if_neg this]
+      exact ih hn.2 hm'
+
+theorem findField_none_of_not_mem {k : List Nat} {fields : List Field}
+    (h : k ∉ fields.map (·.name)) : findField k fields = none := by
+  induction fields with
+  | nil => simp [findField]
+  | cons g fs ih =>
+    simp only [List.map_cons, List.mem_cons, not_or] at h
+    simp only [findField]
+    rw [if_neg (fun e => h.1 e.symm)]
+    exact ih h.2
+
+
+/-! ### `PathParams::extract`: the walk computes a by-name table -/
+
+/-- The table the `visit_map` loop builds when nothing fails. -/
+def walkVals (fields : List Field) : List (List Nat × List Nat × Bool) → List (List Nat × Val)
+  | [] => []
+  | (k, v, o) :: ps =>
+    match findField k fields with
+    | none => walkVals fields ps
+    | some f =>
+      match pathField k f.ty v o with
+      | .ok x => (k, x) :: walkVals fields ps
+      | .error _ => walkVals fields ps
+
+/-- Every parameter that names a field has an acceptable value. -/
+def knownParse (fields : List Field) (dps : List (List Nat × List Nat × Bool)) : Prop :=
+  ∀ p ∈ dps, ∀ f, findField p.1 fields = some f → ∃ x, pathField p.1 f.ty p.2.1 p.2.2 = .ok x
+
+theorem pathWalk_ok_iff (fields : List Field) :
+    ∀ (dps : List (List Nat × List Nat × Bool)) (acc0 acc : List (List Nat × Val)),
+    (dps.map (·.1)).Nodup → (∀ p ∈ dps, lookup p.1 acc0 = none) →
+    (pathWalk fields dps acc0 = .ok acc ↔ (acc = acc0 ++ walkVals fields dps ∧ knownParse fields dps)) := by
+  intro dps
+  induction dps with
+  | nil =>
+    intro acc0 acc _ _
+    simp [pathWalk, walkVals, knownParse, eq_comm]
+  | cons p ps ih =>
+    intro acc0 acc hn hfree
+    obtain ⟨k, v, o⟩ := p
+    simp only [List.map_cons, List.nodup_cons] at hn
+    have hfree' : ∀ q ∈ ps, lookup q.1 acc0 = none := fun q hq => hfree q (List.mem_cons_of_mem _ hq)
+    have hk : lookup k acc0 = none := hfree (k, v, o) (List.mem_cons_self ..)
+    simp only [pathWalk, walkVals]
+    cases hf : findField k fields with
+    | none =>
+      simp only []
+      rw [ih acc0 acc hn.2 hfree']
+      constructor
+      · rintro ⟨h1, h2⟩
+        refine ⟨h1, ?_⟩
+        intro q hq f hqf
+        rcases List.mem_cons.mp hq with e | hq'
+        · subst e
+          simp [hf] at hqf
+        · exact h2 q hq' f hqf
+      · rintro ⟨h1, h2⟩
+        exact ⟨h1, fun q hq f hqf => h2 q (List.mem_cons_of_mem _ hq) f hqf⟩
+    | some f =>
+      simp only [hk]
+      cases hp : pathField k f.ty v o with
+      | error e =>
+        simp only []
+        constructor
+        · intro h
+          cases h
+        · rintro ⟨_, h2⟩
+          obtain ⟨x, hx⟩ := h2 (k, v, o) (List.mem_cons_self ..) f hf
+          simp [hp] at hx
+      | ok x =>
+        simp only []
+        have hfree'' : ∀ q ∈ ps, lookup q.1 (acc0 ++ [(k, x)]) = none := by
+          intro q hq
+          rw [lookup_append, hfree' q hq]
+          simp only [lookup]
+          have : k ≠ q.1 := by
+            intro e
+            exact hn.1 (e ▸ List.mem_map.mpr ⟨q, hq, rfl⟩)
+          simp [this]
+        rw [ih (acc0 ++ [(k, x)]) acc hn.2 hfree'']
+        constructor
+        · rintro ⟨h1, h2⟩
+          refine ⟨by simp [h1], ?_⟩
+          intro q hq g hqg
+          rcases List.mem_cons.mp hq with e | hq'
+          · subst e
+            simp only [hf, Option.some.injEq] at hqg
+            subst hqg
+            exact ⟨x, hp⟩
+          · exact h2 q hq' g hqg
+        · rintro ⟨h1, h2⟩
+          exact ⟨by simp [h1], fun q hq g hqg => h2 q (List.mem_cons_of_mem _ hq) g hqg⟩
+
+theorem lookup_walkVals_none {fields : List Field} {k : List Nat} :
+    ∀ {dps : List (List Nat × List Nat × Bool)}, k ∉ dps.map (·.1) → lookup k (walkVals fields dps) = none := by
+  intro dps
+  induction dps with
+  | nil => intro _; simp [walkVals, lookup]
+  | cons p ps ih =>
+    intro h
+    obtain ⟨k', v, o⟩ := p
+    simp only [List.map_cons, List.mem_cons, not_or] at h
+    simp only [walkVals]
+    cases findField k' fields with
+    | none => exact ih h.2
+    | some f =>
+      simp only []
+      cases pathField k' f.ty v o with
+      | error e => exact ih h.2
+      | ok x =>
+        simp only [lookup]
+        rw [if_neg (fun e => h.1 e.symm)]
+        exact ih h.2
+
+/-- With distinct parameter names and distinct field names, the table maps each field's name to
+    the parse of the parameter of that name. -/
+theorem lookup_walkVals {fields : List Field} {f : Field}
+    (hfn : (fields.map (·.name)).Nodup) (hf : f ∈ fields) :
+    ∀ {dps : List (List Nat × List Nat × Bool)}, (dps.map (·.1)).Nodup →
+    lookup f.name (walkVals fields dps) =
+      match lookup f.name dps with
+      | some (v, o) => (match pathField f.name f.ty v o with | .ok x => some x | .error _ => none)
+      | none => none := by
+  intro dps
+  induction dps with
+  | nil => intro _; simp [walkVals, lookup]
+  | cons p ps ih =>
+    intro hn
+    obtain ⟨k, v, o⟩ := p
+    simp only [List.map_cons, List.nodup_cons] at hn
+    by_cases hk : k = f.name
+    · subst hk
+      simp only [walkVals, findField_of_mem_nodup hfn hf, lookup, if_true]
+      cases hp : pathField f.name f.ty v o with
+      | error e => simpa using lookup_walkVals_none hn.1
+      | ok x => simp [lookup]
+    · simp only [walkVals, lookup, if_neg hk]
+      cases findField k fields with
+      | none => exact ih hn.2
+      | some g =>
+        simp only []
+        cases pathField k g.ty v o with
+        | error e => exact ih hn.2
+        | ok x =>
+          simp only [lookup, if_neg hk]
+          exact ih hn.2
+
+theorem finishOne_eq_spec {fields : List Field} {f : Field} {dps : List (List Nat × List Nat × Bool)}
+    (hfn : (fields.map (·.name)).Nodup) (hf : f ∈ fields) (hdn : (dps.map (·.1)).Nodup)
+    (hk : knownParse fields dps) :
+    finishOne (walkVals fields dps) f = pathFieldSpec dps f := by
+  unfold finishOne pathFieldSpec
+  rw [lookup_walkVals hfn hf hdn]
+  cases hl : lookup f.name dps with
+  | none => rfl
+  | some vo =>
+    obtain ⟨v, o⟩ := vo
+    have hm := lookup_some_mem hl
+    obtain ⟨x, hx⟩ := hk (f.name, v, o) hm f (findField_of_mem_nodup hfn hf)
+    simp only [hx]
+
+theorem finishFields_eq_spec {dps : List (List Nat × List Nat × Bool)} {acc : List (List Nat × Val)} :
+    ∀ (fs : List Field), (∀ f ∈ fs, finishOne acc f = pathFieldSpec dps f) →
+    ∀ vals, (finishFields fs acc = .ok vals ↔ pathSpec dps fs = some vals) := by
+  intro fs
+  induction fs with
+  | nil => intro _ vals; simp [finishFields, pathSpec, eq_comm]
+  | cons f fs ih =>
+    intro h vals
+    have hf := h f (List.mem_cons_self ..)
+    have ih' := ih (fun g hg => h g (List.mem_cons_of_mem _ hg))
+    simp only [finishFields, pathSpec, hf]
+    cases hs : pathFieldSpec dps f with
+    | error e => simp
+    | ok v =>
+      simp only []
+      cases hr : finishFields fs acc with
+      | error e =>
+        cases hq : pathSpec dps fs with
+        | none => simp
+        | some r => exact absurd ((ih' r).mpr hq) (by simp [hr])
+      | ok r =>
+        have := (ih' r).mp hr
+        simp [this]
+
+theorem pathSpec_ok_field {dps : List (List Nat × List Nat × Bool)} :
+    ∀ {fs : List Field} {vals : List (List Nat × Val)}, pathSpec dps fs = some vals →
+    ∀ f ∈ fs, ∃ v, pathFieldSpec dps f = .ok v := by
+  intro fs
+  induction fs with
+  | nil => intro _ _ f hf; cases hf
+  | cons g fs ih =>
+    intro vals h f hf
+    simp only [pathSpec] at h
+    cases hs : pathFieldSpec dps g with
+    | error e => simp [hs] at h
+    | ok v =>
+      cases hr : pathSpec dps fs with
+      | none => simp [hs, hr] at h
+      | some r =>
+        rcases List.mem_cons.mp hf with e | hf'
+        · subst e
+          exact ⟨v, hs⟩
+        · exact ih hr f hf'
+
+theorem knownParse_of_spec {fields : List Field} {dps : List (List Nat × List Nat × Bool)}
+    {vals : List (List Nat × Val)} (hdn : (dps.map (·.1)).Nodup)
+    (h : pathSpec dps fields = some vals) : knownParse fields dps := by
+  intro p hp f hpf
+  obtain ⟨hfm, hname⟩ := findField_some hpf
+  obtain ⟨v, hv⟩ := pathSpec_ok_field h f hfm
+  obtain ⟨k, val, o⟩ := p
+  simp only at hname hpf ⊢
+  subst hname
+  unfold pathFieldSpec at hv
+  rw [lookup_of_mem_nodup hdn hp] at hv
+  exact ⟨v, hv⟩
+
+theorem decodeParams_keys : ∀ {params : List (List Nat × List Nat)} {dps : List (List Nat × List Nat × Bool)},
+    decodeParams params = .ok dps → dps.map (·.1) = params.map (·.1) := by
+  intro params
+  induction params with
+  | nil => intro dps h; simp [decodeParams] at h; subst h; rfl
+  | cons p ps ih =>
+    intro dps h
+    obtain ⟨k, raw⟩ := p
+    simp only [decodeParams] at h
+    split at h
+    · cases hr : decodeParams ps with
+      | error e => simp [hr] at h
+      | ok r =>
+        simp only [hr, Except.ok.injEq] at h
+        subst h
+        simp [ih hr]
+    · cases h
+
 end Pxv.ReqData
